@@ -47,15 +47,15 @@ EYE_NOTE = ("Trusted base: tokio paused clock (virtual time exact at 1 ms); the 
 CHECKS.update({
     "C10": dict(engine="eyeballs+tcpeyes", ref="§5 C10/C11, §4 E4, §10.3",
         technique="property-based testing in virtual time: exhaustive small-scope enumeration plus random attempt sets against statement-derived necessary conditions and a differential reference (discrete-event simulation)",
-        text="Every combination of up to 2 (quick) / 3 (thorough) scripted attempts over the outcome/latency/stagger/timeout/concurrency grid is enumerated, plus random sets of up to 8 attempts: the result must be the first success, failure only after every candidate failed (first failure), timeout only at the deadline without an earlier success, no-progress only for the empty set; tie-free cases must equal the reference exactly. A transport-level leg runs the real TcpTransport::connect_to_addrs over loopback candidates that accept, refuse or hang (listener with a full accept queue) with timeout in {none, 1.2, 1.6, 2.4 s} and concurrency in {none, 0..3}: outcome and completion time must match the reference for stagger = timeout / number of addresses (banded real-time assertions).",
+        text="Every combination of up to 2 (quick) / 3 (thorough) scripted attempts over the outcome/latency/stagger/timeout/concurrency grid is enumerated, plus random sets of up to 8 attempts: the result must be the first success, failure only after every candidate failed (first failure), timeout only at the deadline without an earlier success, no-progress only for the empty set; tie-free cases must equal the reference exactly. A transport-level leg runs the real TcpTransport::connect_to_addrs over loopback candidates that accept, refuse or hang (listener with a full accept queue) with timeout in {none, 1.2, 1.6, 2.4 s} and concurrency in {none, 0..3}: outcome and completion time must match the reference for stagger = timeout / number of addresses (banded real-time assertions; a deviation that machine load could explain is repeated and counts when it occurs three times in a row; configurations in which nothing allows progress must still be pending after 0.5 s).",
         note=EYE_NOTE),
     "C11": dict(engine="eyeballs+tcpeyes", ref="§5 C10/C11, §4 E4, §10.3",
         technique="property-based testing in virtual time: recorded first-poll instants of scripted attempts checked against ordering/pacing/deadline conditions and a differential reference",
-        text="Same domain as C10: attempts start in index order, each at most once, at most the configured number at t=0, each later start justified by an elapsed stagger delay, a failure or idleness and never later than the stagger tick; the operation ends by the deadline; tie-free cases must reproduce the reference start instants exactly. A transport-level leg runs the real TcpTransport::connect_to_addrs over loopback candidates that accept, refuse or hang (listener with a full accept queue) with timeout in {none, 1.2, 1.6, 2.4 s} and concurrency in {none, 0..3}: outcome and completion time must match the reference for stagger = timeout / number of addresses (banded real-time assertions).",
+        text="Same domain as C10: attempts start in index order, each at most once, at most the configured number at t=0, each later start justified by an elapsed stagger delay, a failure or idleness and never later than the stagger tick; the operation ends by the deadline; tie-free cases must reproduce the reference start instants exactly. A transport-level leg runs the real TcpTransport::connect_to_addrs over loopback candidates that accept, refuse or hang (listener with a full accept queue) with timeout in {none, 1.2, 1.6, 2.4 s} and concurrency in {none, 0..3}: outcome and completion time must match the reference for stagger = timeout / number of addresses (banded real-time assertions; a deviation that machine load could explain is repeated and counts when it occurs three times in a row; configurations in which nothing allows progress must still be pending after 0.5 s).",
         note=EYE_NOTE),
     "C16": dict(engine="addrsort", ref="§5 C16, §4 E7",
         technique="exhaustive small-scope enumeration plus property-based testing against an independent specification (stable partition); end-to-end differential leg over loopback listeners",
-        text="All IPv4/IPv6 family patterns up to length 8 (quick) / 12 (thorough) for the four local-binding combinations, exhaustively, plus random lists with duplicates: output is a permutation, first/second element and remainder order equal the specification, set_port applies to every address; through TcpTransport with a scripted resolver and local bindings (none, loopback, wildcard) the accepted peer is the first live address of the specified order.",
+        text="All IPv4/IPv6 family patterns up to length 8 (quick) / 12 (thorough) for the four local-binding combinations, exhaustively, plus random lists with duplicates: output is a permutation, first/second element and remainder order equal the specification, set_port applies to every address; through TcpTransport with a scripted resolver and local bindings (none, loopback, wildcard) the accepted peer is the first live address of the specified order, also when addresses in front of it hang (listeners that never answer: the next address is tried after the stagger delay).",
         note="Trusted base: the hook wrappers call the crate-private routines unchanged; loopback networking for the end-to-end leg (dead addresses are sockets held bound without listening: refused at once, immediate compared with the >= 570 ms stagger, and not bindable by anyone else meanwhile)."),
     "C20": dict(engine="sni+tlsstack", ref="§5 C20, §4 E10, §10.3",
         technique="grammar-based property testing of the public ValidateSNI layer against an independent reference predicate (two-directional: never forwarded on mismatch, never rejected on match)",
@@ -77,7 +77,7 @@ CHECKS.update({
         note="In the TLS pair leg an end may also vanish abruptly (transport dropped without close_notify): the reader must then see an error, never a clean end of stream. Trusted base: wrapper adapters are pass-through (no buffering); real-socket legs use 2 s real-time guards whose expiry is inconclusive, never a violation; rustls/tokio-rustls record layer in the TLS pair leg (pipes below a record header stall in the TLS stack itself and are excluded)."),
     "C19": dict(engine="timeout+poolsim+netsim", ref="§5 C19, §4 E9/E1/E2",
         technique="property-based testing in virtual time: exhaustive grid plus random (duration, inner completion, first-poll delay) cases for the Timeout layer; stateful pool histories with virtual-time advances so deadlines fire at every stage of a pooled request",
-        text="Unit leg: result value, resolution instant (never later than the deadline), inner future dropped at resolution and never polled again; durations range from 0 to Duration::MAX (no panic, the inner result is delivered). Pool leg: requests wrapped in the real Timeout inside poolsim histories; a request polled at or after its deadline must resolve, a timeout never fires early, no connection is handed to a request that already ended, and after the drain a probe to every origin is served. End-to-end leg: the real client stack with with_timeout against slow handlers in netsim (timeouts fire exactly at the deadline, completed requests are intact, a fresh client is served afterwards).",
+        text="Unit leg: result value, resolution instant (never later than the deadline), inner future dropped at resolution and never polled again; durations range from 0 to Duration::MAX (no panic, the inner result is delivered). Pool leg: requests wrapped in the real Timeout inside poolsim histories; a request polled at or after its deadline must resolve, a timeout never fires early, no connection is handed to a request that already ended, and after the drain a probe to every origin is served. End-to-end leg: the real client stack with with_timeout against slow handlers in netsim, with followed redirects (timeouts fire exactly at the deadline, which covers the whole chain of hops; no request future resolves after its deadline; completed requests are intact, a fresh client is served afterwards).",
         note="Trusted base: tokio paused clock; poolsim collaborators (see C02). When the first poll happens after both the deadline and the inner completion either answer is accepted."),
 })
 
@@ -95,7 +95,7 @@ CHECKS.update({
 NET_NOTE = ("Trusted base: tokio current_thread scheduler with paused clock (schedules explored by timing perturbation: start "
             "times, handler delays, chunk gaps, transport connect delay and per-read latency, buffer sizes 1 B-64 KiB); hyper/h2 as "
             "HTTP engines on both sides; the duplex transport stands for the network. HTTP/2 is combined only with pipes >= 128 B "
-            "(h2's own handshake deadlocks on smaller ones) and with pipes that hold at least the smaller direction's total traffic (h2 writes an owed control frame before it reads: with both directions full two ends owing SETTINGS ACK / GOAWAY stall each other, DESIGN 10.4) and GET bodies carry exact size hints (hyper does not chunk GET bodies).")
+            "(h2's own handshake deadlocks on smaller ones) and with pipes that hold at least the smaller direction's total traffic (h2 writes an owed control frame before it reads: with both directions full two ends owing SETTINGS ACK / GOAWAY stall each other, DESIGN 10.4) and GET bodies carry exact size hints (hyper does not chunk GET bodies). One case in three runs over TLS (Server::with_tls with the fixture certificate, client with_tls, https origins, no ALPN): rustls on both ends is then part of the trusted base.")
 
 CHECKS.update({
     "C01": dict(engine="netsim+poolsim+tcpe2e", ref="§5 C01, §4 E2/E1",
@@ -108,7 +108,7 @@ CHECKS.update({
         note=NET_NOTE + " Idle holders are only placed where hyper itself closes them on graceful shutdown (auto-detecting and idle HTTP/1 connections)."),
     "C09": dict(engine="netsim+socksrv+tlsstack", ref="§5 C09, §4 E2, §10.3",
         technique="fault-sequence generation in virtual time: per-connection faults (cancelled connect, disconnects, garbage, truncated head/body, mid-response disconnect, partial preface, clients asking for a 0- or 1-byte pipe, handler errors) interleaved with well-behaved requests; oracle = serving futures still pending, probe client served, other requests correct",
-        text="After 1-5 generated faults per case the serving future of every server must still be pending, a fresh well-behaved probe client must be served by every server, and every well-behaved request on other connections must have completed with its correct response.",
+        text="After 1-5 generated faults per case (incl. a crowd of 2-65 clients that connect in one instant and hang up; servers built plain or with_graceful_shutdown on a signal that never resolves) the serving future of every server must still be pending, a fresh well-behaved probe client must be served by every server, and every well-behaved request on other connections must have completed with its correct response.",
         note=NET_NOTE + " A real-socket leg (engine socksrv) repeats the fault/probe scheme on TCP and Unix acceptors in real time (reset or close before accept, garbage, truncated head/body, Unix clients bound to plain and non-UTF-8 pathnames); a probe that merely times out there is inconclusive. A TLS-listener leg (engine tlsstack) injects plaintext, garbage, truncated-ClientHello, immediate-close and wrong-SNI clients at a real Server with with_tls and then requires a well-behaved TLS probe to be served and the serving future still pending. A capped make-service leg (engine makeready) gives the Server a make-service that admits a bounded number of live connections: call() without a preceding Ready from poll_ready is a violation, and a stalled client must not keep later clients from being served once a slot frees up. OS-level accept() errors are not reachable."),
 })
 
@@ -131,7 +131,7 @@ NOT_YET = {
 CHECKS.update({
     "C12": dict(engine="tlswire+tlsstack", ref="§5 C12, §4 E5, §10.3",
         technique="property-based testing with fault injection at the TLS peer: generated (scheme, host form, port, peer behaviour, ALPN, client TLS) combinations through the real TlsTransport with the client's wire recorded; oracle = TLS record framing of every byte, absence of a secret token, outcome vs certificate validity, SNI seen by the peer",
-        text="For https/wss with a client TLS configuration every byte put on the wire must parse as TLS records and never contain the application secret; a stream is only returned after a handshake with a peer whose (fixture) certificate is valid for the URI host and the SNI offered equals that host; mismatching, untrusted, plaintext, closing, truncating and silent peers yield an error or nothing, never a stream; other schemes pass bytes verbatim; no syntactically valid host panics. The full-stack leg (engine tlsstack) runs the whole client (pool, connector, TlsTransport, HTTP/1 and HTTP/2) against a real TLS Server: request secrets in path/header/body never appear in the recorded client bytes, every byte is TLS-framed, and the server's certificate resolver sees SNI = URI host; the client is built with the TLS setting made before or after the builder calls that rebuild it. Request sequences mix schemes (http, https, ws, wss) to one authority through one pooled client, against the TLS server and a plaintext twin behind the same transport: a secure-scheme request must arrive through TLS, a plain one must not be wrapped.",
+        text="For https/wss with a client TLS configuration every byte put on the wire must parse as TLS records and never contain the application secret; a stream is only returned after a handshake with a peer whose (fixture) certificate is valid for the URI host and the SNI offered equals that host; mismatching, untrusted, plaintext, closing, truncating and silent peers yield an error or nothing, never a stream; other schemes pass bytes verbatim; no syntactically valid host panics; a Host header naming another host (covered by the certificate or not, or an IP address) changes neither the server name offered nor the name the certificate is checked against. The full-stack leg (engine tlsstack) runs the whole client (pool, connector, TlsTransport, HTTP/1 and HTTP/2) against a real TLS Server: request secrets in path/header/body never appear in the recorded client bytes, every byte is TLS-framed, and the server's certificate resolver sees SNI = URI host; the client is built with the TLS setting made before or after the builder calls that rebuild it. Request sequences mix schemes (http, https, ws, wss) to one authority through one pooled client, against the TLS server and a plaintext twin behind the same transport: a secure-scheme request must arrive through TLS, a plain one must not be wrapped.",
         note="Trusted base: rustls on both ends, the committed 100-year fixture certificates and the system clock inside their validity; ALPN offers without overlap are accepted either way."),
 })
 NOT_YET = {}
